@@ -236,3 +236,16 @@ Proof.
   - intros [<-|[[[]|?]|?]]; auto.
   - intros [->|[?|?]]; auto.
 Qed.
+
+(* a full validation queue: the message is dropped without penalty whatever the validators would have said;
+   with room in the queue the verdict is the pipeline's *)
+Theorem queue_full_drops s : queued s = true -> fate_q s true = ThrottledNoPenalty.
+Proof. intros H. unfold fate_q, verdict_q. rewrite H. reflexivity. Qed.
+Theorem queue_room_is_pipeline s : fate_q s false = fate_of_setup s.
+Proof. reflexivity. Qed.
+Theorem deliver_q_needs_pipeline s q : fate_q s q = Deliver -> fate_of_setup s = Deliver /\ (q = false \/ queued s = false).
+Proof.
+  unfold fate_q, verdict_q, fate_of_setup. destruct q; cbn [andb].
+  - destruct (queued s); [discriminate|]. intros H. split; [exact H | right; reflexivity].
+  - intros H. split; [exact H | left; reflexivity].
+Qed.
